@@ -5,5 +5,6 @@ CONSTANTS
   MaxIters = 4
   Modes = {"new", "all"}
   Variant = "ok"
+  AllowLoss = FALSE
   Emit = TRUE
 CHECK_DEADLOCK FALSE
